@@ -500,7 +500,9 @@ class Bec2File:
                 auth_block, session_key = auth_block_cls.unpack(
                     tlv_value, ext_encryptors
                 )
-            except KeyError:
+            except (KeyError, NotImplementedError):
+                # no encryptor for this block, or the matching one cannot decrypt
+                # (e.g. an EccEncryptor that only holds the public key)
                 auth_blocks.append(UnknownAuthBlock(tlv_tag, tlv_value))
             else:
                 auth_blocks.append(auth_block)
